@@ -196,7 +196,8 @@ impl<W: Write> WriteBox<&mut W> for DrefBox {
 
         write_box_header_ext(writer, self.version, self.flags)?;
 
-        writer.write_u32::<BigEndian>(1)?;
+        // entry_count
+        writer.write_u32::<BigEndian>(if self.url.is_some() { 1 } else { 0 })?;
 
         if let Some(ref url) = self.url {
             url.write_box(writer)?;
